@@ -159,11 +159,14 @@ class Recorder:
                 raise Runaway("%d messages handed to process_msg for %d frames sent" % (len(self.msgs), len(self.frames)))
             return real_pm(header, body)
         conn.process_msg = observed_process_msg
+        # several watchers per event type, as register_watcher() allows; one of them raises.  _push_watchers holds
+        # sets: the watcher objects hash to 0, 1, 2, so the raising one comes first in the set's iteration order
         for et in ("STATUS_CHANGE", "TOPOLOGY_CHANGE", "SCHEMA_CHANGE"):
-            conn._push_watchers[et] = {self._watcher(et)}
+            conn._push_watchers[et] = {_Watcher(n, name, self, et) for n, name in enumerate(WATCHERS)}
 
     def reset_log(self):
         self.delivered, self.pushed, self.order, self.msgs = [], [], [], []
+        self.wseen = {w: [] for w in WATCHERS}
         self._decoded = []
         self.conn_errors = []
         self.by_stream, self.by_addr = {}, {}
@@ -204,8 +207,17 @@ class Recorder:
             self.order.append(idx)
         return cb
 
-    def _watcher(self, event_type):
+    def _watcher(self, event_type, name=None):
         def cb(args):
+            if name is not None and name != PRIMARY:
+                try:
+                    f = self.by_addr.get(tuple(args["address"]))
+                except Exception:
+                    f = None
+                self.wseen[name].append(f.idx if f is not None else 0)
+                if name in RAISING:
+                    raise RuntimeError("watcher %s fails" % name)
+                return
             try:
                 addr, port = args["address"]
                 f = self.by_addr.get((addr, port))
@@ -219,7 +231,30 @@ class Recorder:
             self.pushed.append({"idx": idx, "stream": f.stream if f is not None else -999,
                                 "len": len(seen[3]) if seen else -1, "exact": bool(ok)})
             self.order.append(idx)
+            self.wseen[PRIMARY].append(idx)
         return cb
+
+
+WATCHERS = ("bad", "good1", "good2")      # registration order = hash order = iteration order of the set
+RAISING = ("bad",)
+PRIMARY = "good1"                         # the watcher whose view is logged in detail (`pushed`)
+
+
+class _Watcher:
+    """A registered push callback with a chosen place in the watcher set's iteration order."""
+
+    def __init__(self, n, name, rec, event_type):
+        self.n, self.name = n, name
+        self.fn = rec._watcher(event_type, name)
+
+    def __hash__(self):
+        return self.n
+
+    def __eq__(self, other):
+        return self is other
+
+    def __call__(self, args):
+        return self.fn(args)
 
 
 def open_connection(protocol_version=4, versions=(1, 2, 3, 4, 5), **kw):
@@ -283,6 +318,7 @@ class FramingHarness:
             buflen = -1
         return {"sent": self.sent, "buflen": buflen, "cur": c._current_frame is not None,
                 "delivered": [dict(d) for d in r.delivered], "pushed": [dict(d) for d in r.pushed],
+                "wseen": {w: list(v) for w, v in r.wseen.items()},
                 "order": list(r.order), "nmsgs": len(r.msgs), "defunct": bool(c.is_defunct or c.is_closed)}
 
 
@@ -290,6 +326,7 @@ def spec_projection(state):
     """The same projection of a Framing.tla state."""
     return {"sent": state["sent"], "buflen": len(state["buf"]), "cur": state["cur"] != 0,
             "delivered": [dict(d) for d in state["delivered"]], "pushed": [dict(d) for d in state["pushed"]],
+            "wseen": {str(w): list(v) for w, v in dict(state["wseen"]).items()},
             "order": list(state["order"]), "nmsgs": len(state["order"]), "defunct": bool(state["desync"])}
 
 
